@@ -8,7 +8,7 @@ namespace Driver
 def optNat (j : Json) (k : String) : Option Nat := if has j k then some (nat j k) else none
 
 def parseDCol (j : Json) : Col := ⟨nat j "name", nats j "attrs"⟩
-def parseDPart (j : Json) : Part := ⟨nat j "col", bool j "desc"⟩
+def parseDPart (j : Json) : Part := ⟨nat j "col", bool j "desc", nat j "attr"⟩
 def parseDIdx (j : Json) : Idx :=
   { name := optNat j "name", generatedName := bool j "generated", unique := bool j "unique",
     parts := (arr j "parts").map parseDPart, attrs := nat j "attrs" }
